@@ -1135,11 +1135,12 @@ func zipInnerSubscription[T any](subscriberCtx context.Context, obs Observable[T
 					if len(*values) == 0 {
 						mu.Unlock()
 						destination.CompleteWithContext(ctx)
+						subscriptions.Unsubscribe()
 					} else {
+						// Values of this source are still queued: the other sources must
+						// stay subscribed until they have been paired (onUpdate completes then).
 						mu.Unlock()
 					}
-
-					subscriptions.Unsubscribe()
 				},
 			),
 		),
@@ -1190,7 +1191,10 @@ func ZipWith1[A, B any](obsB Observable[B]) func(Observable[A]) Observable[lo.Tu
 
 					if (completedA && len(valueA) == 0) ||
 						(completedB && len(valueB) == 0) {
+						mu.Unlock()
 						destination.CompleteWithContext(ctx) // @TODO: Send the last context ?
+
+						return
 					}
 				}
 
@@ -1258,7 +1262,10 @@ func ZipWith2[A, B, C any](obsB Observable[B], obsC Observable[C]) func(Observab
 					if (completedA && len(valueA) == 0) ||
 						(completedB && len(valueB) == 0) ||
 						(completedC && len(valueC) == 0) {
+						mu.Unlock()
 						destination.CompleteWithContext(ctx) // @TODO: Send the last context ?
+
+						return
 					}
 				}
 
@@ -1333,7 +1340,10 @@ func ZipWith3[A, B, C, D any](obsB Observable[B], obsC Observable[C], obsD Obser
 						(completedB && len(valueB) == 0) ||
 						(completedC && len(valueC) == 0) ||
 						(completedD && len(valueD) == 0) {
+						mu.Unlock()
 						destination.CompleteWithContext(ctx) // @TODO: Send the last context ?
+
+						return
 					}
 				}
 
@@ -1416,7 +1426,10 @@ func ZipWith4[A, B, C, D, E any](obsB Observable[B], obsC Observable[C], obsD Ob
 						(completedC && len(valueC) == 0) ||
 						(completedD && len(valueD) == 0) ||
 						(completedE && len(valueE) == 0) {
+						mu.Unlock()
 						destination.CompleteWithContext(ctx) // @TODO: Send the last context ?
+
+						return
 					}
 				}
 
@@ -1508,7 +1521,10 @@ func ZipWith5[A, B, C, D, E, F any](obsB Observable[B], obsC Observable[C], obsD
 						(completedD && len(valueD) == 0) ||
 						(completedE && len(valueE) == 0) ||
 						(completedF && len(valueF) == 0) {
+						mu.Unlock()
 						destination.CompleteWithContext(ctx) // @TODO: Send the last context ?
+
+						return
 					}
 				}
 
@@ -1582,8 +1598,10 @@ func zipAllInnerSubscriptions[T any](outerCtx context.Context, sources []Observa
 
 			for i := range sources {
 				if completed[i] && len(values[i]) == 0 {
+					mu.Unlock()
 					destination.CompleteWithContext(ctx) // @TODO: Send the last context ?
-					break
+
+					return
 				}
 			}
 		}
